@@ -35,6 +35,7 @@ class Prog:
     cd_extra: bytes = b""  # concrete trailing calldata bytes
     loop_bound: int | None = None
     ref_paths: int = 64
+    storage_symbolic: bool = False
     known_preimages: tuple = ()  # byte strings whose keccak appears as a constant in the code (A2 instances)
     script: object = None  # fault script for the branching solver (C02)
     script_name: str = ""
@@ -99,7 +100,7 @@ def run_halmos(p: Prog, inp: Inputs, max_paths=256, timeout_s=60):
         code={z3.BitVecVal(a, 160): c for a, c in p.contracts.items()},
         target=z3.BitVecVal(p.target, 160),
         caller=inp.sender, origin=inp.origin, value=inp.value if not p.callvalue_zero else z3.BitVecVal(0, 256),
-        data=data, is_static=p.static,
+        data=data, is_static=p.static, storage_symbolic=p.storage_symbolic,
     )
     from halmos.sevm import EMPTY_BALANCE
 
